@@ -280,15 +280,34 @@ Fixpoint ra_resolve_all (cs : list conv) (l : list rattr) : option (list reqattr
               end
   end.
 
-Definition requested_attribute (r : reqattr) : obj :=
+(* the third step (repair 711f9f2e of finding 10): a name_format that is still missing after the two loops is taken from
+   the first map whose _fro knows the name - the look-up the second loop does (ra_fro_hit), now also when that loop
+   did not run or found a map without a usable format *)
+Definition ra_step3 (r : reqattr) : option string :=
+  let fmt := snd (ra_step2 r) in
+  if struthy fmt then fmt
+  else match fst (ra_step1 r) with
+       | Some n => if is_empty n then fmt
+                   else match ra_fro_hit r with Some (_, f) => Some f | None => fmt end
+       | None => fmt
+       end.
+
+Definition requested_attribute_of (fmt : reqattr -> option string) (r : reqattr) : obj :=
   Obj k_extension_requested_attributes_RequestedAttribute
-      [at_ "Name" (fst (ra_step1 r)); at_ "NameFormat" (snd (ra_step2 r)); at_ "FriendlyName" (fst (ra_step2 r));
+      [at_ "Name" (fst (ra_step1 r)); at_ "NameFormat" (fmt r); at_ "FriendlyName" (fst (ra_step2 r));
        at_ "isRequired" (Some (lower (pystr (ra_required r))))]
       None [] [].
 
-Definition requested_attributes_node (rs : list reqattr) : obj :=
+Definition requested_attribute : reqattr -> obj := requested_attribute_of ra_step3.
+(* before 711f9f2e: the format as the two loops left it *)
+Definition requested_attribute_v0 : reqattr -> obj := requested_attribute_of (fun r => snd (ra_step2 r)).
+
+Definition requested_attributes_node_of (item : reqattr -> obj) (rs : list reqattr) : obj :=
   Obj k_extension_requested_attributes_RequestedAttributes [] None
-      [(Q EIDAS_NS "RequestedAttribute", map requested_attribute rs)] [].
+      [(Q EIDAS_NS "RequestedAttribute", map item rs)] [].
+
+Definition requested_attributes_node : list reqattr -> obj := requested_attributes_node_of requested_attribute.
+Definition requested_attributes_node_v0 : list reqattr -> obj := requested_attributes_node_of requested_attribute_v0.
 
 Definition sp_type_node (t : string) : obj := Obj k_extension_sp_type_SPType [] (Some t) [] [].
 
@@ -407,7 +426,7 @@ Definition ras_choice (a : ar_args) : option (list reqattr) :=
   ra_resolve_all (ar_convs a) (match ar_reqattrs a with [] => ar_cfg_reqattrs a | l => l end).
 
 (* eIDAS SPType / RequestedAttributes go into Extensions (created when there is none) *)
-Definition ext_choice (a : ar_args) : option (list tree) :=
+Definition ext_choice_gen (node : list reqattr -> obj) (a : ar_args) : option (list tree) :=
   let ext0 := ar_extensions a in
   let ext1 :=
     match ar_cfg_sp_type a, ar_cfg_sp_type_in_md a with
@@ -419,8 +438,10 @@ Definition ext_choice (a : ar_args) : option (list tree) :=
   let ras := match ras_choice a with Some l => l | None => [] end in
   match ras with
   | [] => ext1
-  | _ => Some (match ext1 with Some c => c | None => [] end ++ [to_tree live_table (requested_attributes_node ras)])
+  | _ => Some (match ext1 with Some c => c | None => [] end ++ [to_tree live_table (node ras)])
   end.
+
+Definition ext_choice : ar_args -> option (list tree) := ext_choice_gen requested_attributes_node.
 
 Definition force_choice (a : ar_args) : option string :=
   let fa := if truthy (ar_kw_force_authn a) then ar_kw_force_authn a else ar_cfg_force_authn a in
@@ -434,13 +455,13 @@ Definition provider_choice (a : ar_args) : option string :=
 
 Definition rac_choice (a : ar_args) : racv := if rac_truthy (ar_kw_rac a) then ar_kw_rac a else ar_cfg_rac a.
 
-Definition authn_request (a : ar_args) : option obj :=
+Definition authn_request_gen (node : list reqattr -> obj) (a : ar_args) : option obj :=
   match ras_choice a with None => None | Some _ =>        (* ValueError of create_requested_attribute_node *)
   match sig_member (ar_signing a) (ar_ob a) with
   | None => None
   | Some sg =>
       Some (message k_samlp_AuthnRequest (ar_entityid a) (ar_ob a) (ar_destination a) (ar_consent a)
-                    (match ext_choice a with Some c => Some (o_extensions c) | None => None end) sg
+                    (match ext_choice_gen node a with Some c => Some (o_extensions c) | None => None end) sg
                     [at_ "ForceAuthn" (force_choice a); at_ "IsPassive" (ar_kw_is_passive a);
                      at_ "ProtocolBinding" (snd (acs_choice a));
                      at_ "AssertionConsumerServiceIndex" (snd (fst (acs_choice a)));
@@ -453,6 +474,10 @@ Definition authn_request (a : ar_args) : option obj :=
                      (qp "RequestedAuthnContext", rac_member (rac_choice a));
                      (qp "Scoping", map (ORaw (CK k_samlp_Scoping)) (opt_list (ar_scoping a)))])
   end end.
+
+Definition authn_request : ar_args -> option obj := authn_request_gen requested_attributes_node.
+(* before 711f9f2e (Corr.cls 10 recognises a regression by it) *)
+Definition authn_request_v0 : ar_args -> option obj := authn_request_gen requested_attributes_node_v0.
 
 (* ------------------------------------------------------------------ status factories (s_utils.py 238-273) *)
 Definition o_status_code (value : string) (inner : list obj) : obj :=
